@@ -186,97 +186,133 @@ func c13Operators(c *Ctx) {
 		c.undecided("R5", "first-byte", p.Pos(nx.Pos()), "no peek call found")
 		return
 	}
-	F := FactsOf(nx)
 	got := map[string]string{}
 	excl := map[string]map[string]bool{}
 	special := map[string]string{}
+	// the dispatch on the first byte sits in Next, or partly in a helper of its own that Next hands
+	// the byte to in tail position (`return l.operator(c)`): both are read, the helper with its
+	// parameter standing for the byte
+	type opScope struct {
+		fn *ssa.Function
+		cv ssa.Value
+	}
+	scopes := []opScope{{nx, cVal}}
+	handedOver := map[*ssa.Return]bool{}
 	for _, r := range returnsOf(nx) {
 		res := effectiveResults(r)
-		tag := tokenTagOf(p, res[0])
-		first, second := "", ""
-		ne := map[string]bool{}
-		for _, rl := range F.At(r.Block()).Rels() {
-			k, ok := constInt(rl.y)
-			if !ok || k <= 0 || k > 255 {
-				continue
-			}
-			ch := string(rune(k))
-			isC := rl.x == ssa.Value(cVal)
-			isPeek := false
-			if pc, ok := rl.x.(*ssa.Call); ok && pc != cVal && staticCalleeIs(pc, "(*lang.Lexer).peek") {
-				isPeek = true
-			}
-			switch {
-			case isC && rl.op == relEQ:
-				first = ch
-			case isPeek && rl.op == relEQ:
-				second = ch
-			case isPeek && rl.op == relNE:
-				ne[ch] = true
-			}
-		}
-		if first == "" {
+		ex, ok := res[0].(*ssa.Extract)
+		if !ok {
 			continue
 		}
-		// the token comes from a private helper given the tags as arguments (`return l.opOrOpEqual(A, B), nil`):
-		// its returns are this arm's returns, with the helper's own tests of the following byte
-		if hc, ok := res[0].(*ssa.Call); ok && tag == "" {
-			tagArg := false
-			for _, a := range hc.Call.Args {
-				if _, isC := a.(*ssa.Const); isC && isLangNamed(a.Type(), "TokenTag") {
-					tagArg = true
-				}
-			}
-			if h := hc.Call.StaticCallee(); tagArg && h != nil && p.InLang(h) && h != nx && len(h.Params) == len(hc.Call.Args) && isPrivateTo(p, h, nx) {
-				sub := &renderer{p: p, subst: map[*ssa.Parameter]string{}}
-				for i, prm := range h.Params {
-					sub.subst[prm] = p.Render(hc.Call.Args[i])
-				}
-				FH := FactsOf(h)
-				expanded := false
-				for _, rr := range returnsOf(h) {
-					ht := tokenTagOfText(sub.val(effectiveResults(rr)[0], 0))
-					if ht == "" {
-						continue
-					}
-					expanded = true
-					sec := ""
-					hne := map[string]bool{}
-					for _, rl := range FH.At(rr.Block()).Rels() {
-						k, ok := constInt(rl.y)
-						if !ok || k <= 0 || k > 255 {
-							continue
-						}
-						if pc, ok := rl.x.(*ssa.Call); ok && staticCalleeIs(pc, "(*lang.Lexer).peek") {
-							if rl.op == relEQ {
-								sec = string(rune(k))
-							} else if rl.op == relNE {
-								hne[string(rune(k))] = true
-							}
-						}
-					}
-					got[first+sec] = ht
-					if sec == "" {
-						excl[first] = hne
-					}
-				}
-				if expanded {
-					continue
-				}
-			}
-		}
-		if tag == "" {
-			special[first] = p.Render(res[0])
+		hc, ok := ex.Tuple.(*ssa.Call)
+		if !ok {
 			continue
 		}
-		if tag == "Error" {
+		h := hc.Call.StaticCallee()
+		if h == nil || !p.InLang(h) || h == nx || len(h.Blocks) == 0 || len(h.Params) != len(hc.Call.Args) || !isPrivateTo(p, h, nx) {
 			continue
 		}
-		got[first+second] = tag
-		if second == "" {
-			excl[first] = ne
+		for i, a := range hc.Call.Args {
+			if a == ssa.Value(cVal) {
+				scopes = append(scopes, opScope{h, h.Params[i]})
+				handedOver[r] = true
+			}
 		}
 	}
+	for _, sc := range scopes {
+		nx, cVal, F := sc.fn, sc.cv, FactsOf(sc.fn)
+		for _, r := range returnsOf(nx) {
+			if handedOver[r] {
+				continue
+			}
+			res := effectiveResults(r)
+			tag := tokenTagOf(p, res[0])
+			first, second := "", ""
+			ne := map[string]bool{}
+			for _, rl := range F.At(r.Block()).Rels() {
+				k, ok := constInt(rl.y)
+				if !ok || k <= 0 || k > 255 {
+					continue
+				}
+				ch := string(rune(k))
+				isC := rl.x == ssa.Value(cVal)
+				isPeek := false
+				if pc, ok := rl.x.(*ssa.Call); ok && pc != cVal && staticCalleeIs(pc, "(*lang.Lexer).peek") {
+					isPeek = true
+				}
+				switch {
+				case isC && rl.op == relEQ:
+					first = ch
+				case isPeek && rl.op == relEQ:
+					second = ch
+				case isPeek && rl.op == relNE:
+					ne[ch] = true
+				}
+			}
+			if first == "" {
+				continue
+			}
+			// the token comes from a private helper given the tags as arguments (`return l.opOrOpEqual(A, B), nil`):
+			// its returns are this arm's returns, with the helper's own tests of the following byte
+			if hc, ok := res[0].(*ssa.Call); ok && tag == "" {
+				tagArg := false
+				for _, a := range hc.Call.Args {
+					if _, isC := a.(*ssa.Const); isC && isLangNamed(a.Type(), "TokenTag") {
+						tagArg = true
+					}
+				}
+				if h := hc.Call.StaticCallee(); tagArg && h != nil && p.InLang(h) && h != nx && len(h.Params) == len(hc.Call.Args) && isPrivateTo(p, h, nx) {
+					sub := &renderer{p: p, subst: map[*ssa.Parameter]string{}}
+					for i, prm := range h.Params {
+						sub.subst[prm] = p.Render(hc.Call.Args[i])
+					}
+					FH := FactsOf(h)
+					expanded := false
+					for _, rr := range returnsOf(h) {
+						ht := tokenTagOfText(sub.val(effectiveResults(rr)[0], 0))
+						if ht == "" {
+							continue
+						}
+						expanded = true
+						sec := ""
+						hne := map[string]bool{}
+						for _, rl := range FH.At(rr.Block()).Rels() {
+							k, ok := constInt(rl.y)
+							if !ok || k <= 0 || k > 255 {
+								continue
+							}
+							if pc, ok := rl.x.(*ssa.Call); ok && staticCalleeIs(pc, "(*lang.Lexer).peek") {
+								if rl.op == relEQ {
+									sec = string(rune(k))
+								} else if rl.op == relNE {
+									hne[string(rune(k))] = true
+								}
+							}
+						}
+						got[first+sec] = ht
+						if sec == "" {
+							excl[first] = hne
+						}
+					}
+					if expanded {
+						continue
+					}
+				}
+			}
+			if tag == "" {
+				special[first] = p.Render(res[0])
+				continue
+			}
+			if tag == "Error" {
+				continue
+			}
+			got[first+second] = tag
+			if second == "" {
+				excl[first] = ne
+			}
+		}
+	}
+	F := FactsOf(nx)
 	var sp []string
 	for s := range operatorOracle {
 		sp = append(sp, s)
@@ -317,30 +353,33 @@ func c13Operators(c *Ctx) {
 	c.check(got["\n"] == "Newline", "R4", "newline-token", p.Pos(nx.Pos()), "'\\n' -> Newline token", "a newline is not returned as a Newline token")
 	_ = special
 	quotes := map[string]bool{}
-	for _, call := range callsIn(nx) {
-		if !staticCalleeIs(call, "(*lang.Lexer).string") {
-			continue
-		}
-		okArg := call.Common().Args[1] == ssa.Value(cVal)
-		c.check(okArg, "R3", "string-terminator-argument", p.InstrPos(call), "the string scanner is given the opening quote byte", "Lexer.string is not called with the byte that opened the literal")
-		b := call.Block()
-		for len(b.Preds) == 1 {
-			if ef, ok := edgeFact(b.Preds[0], b); ok {
-				if rl, ok := relsOf(ef); ok && rl.op == relEQ && rl.x == ssa.Value(cVal) {
-					break
-				}
+	for _, sc := range scopes {
+		nx, cVal, F := sc.fn, sc.cv, FactsOf(sc.fn)
+		for _, call := range callsIn(nx) {
+			if !staticCalleeIs(call, "(*lang.Lexer).string") {
+				continue
 			}
-			b = b.Preds[0]
-		}
-		preds := b.Preds
-		if len(preds) == 1 {
-			preds = []*ssa.BasicBlock{b.Preds[0]}
-		}
-		for _, pr := range preds {
-			for _, rl := range F.OnEdge(pr, b).Rels() {
-				if rl.op == relEQ && rl.x == ssa.Value(cVal) {
-					if k, ok := constInt(rl.y); ok {
-						quotes[string(rune(k))] = true
+			okArg := call.Common().Args[1] == ssa.Value(cVal)
+			c.check(okArg, "R3", "string-terminator-argument", p.InstrPos(call), "the string scanner is given the opening quote byte", "Lexer.string is not called with the byte that opened the literal")
+			b := call.Block()
+			for len(b.Preds) == 1 {
+				if ef, ok := edgeFact(b.Preds[0], b); ok {
+					if rl, ok := relsOf(ef); ok && rl.op == relEQ && rl.x == ssa.Value(cVal) {
+						break
+					}
+				}
+				b = b.Preds[0]
+			}
+			preds := b.Preds
+			if len(preds) == 1 {
+				preds = []*ssa.BasicBlock{b.Preds[0]}
+			}
+			for _, pr := range preds {
+				for _, rl := range F.OnEdge(pr, b).Rels() {
+					if rl.op == relEQ && rl.x == ssa.Value(cVal) {
+						if k, ok := constInt(rl.y); ok {
+							quotes[string(rune(k))] = true
+						}
 					}
 				}
 			}
